@@ -8,6 +8,14 @@
  *   ctxo <explicit 0|1> <repo> <op> <op> ...      the same, plus a second (shadow) context that only gets the
  *                                                 operations that succeeded in the first one, plus data trees
  *   ctxint                                        table of the internal modules of a new context
+ *   ctxr <explicit 0|1> <repo> <op> <op> ...      richer modules (no model counterpart): a repo entry has a fifth part
+ *                                                 <extras> = `-` or comma list of  d<k> identity derived from import k's base,
+ *                                                 s<name> submodule importing module <name> with an identity derived from its
+ *                                                 base, a<k> augment of import k's container, n<k><j> augment into the node
+ *                                                 import j's augment adds to import k, v<k> deviation of import k. Output per
+ *                                                 op: <ok|E|nomod>;<module> ...;L:..;M:.. S<=|!|.> with <module> =
+ *                                                 <name><rev><I|i>{features}id[<identity>(<derived>..)..]ab[..]db[..]c=<hash|->
+ *                                                 (identities[].derived, augmented_by, deviated_by, compiled YANG print)
  *
  * <repo> = module descriptions separated by `;`, each  <name><rev>:<imports>:<features>:<fault>
  *   name    one letter a..h                       rev   digit 0 (no revision statement), 1, 2, 3
@@ -70,6 +78,13 @@ struct mdesc {
         char dep[MAXDEP][8];
     } feat[MAXFEAT];
     int fault;
+    /* ctxr only */
+    unsigned derive, augment, deviate;  /* bit k: import k */
+    int nnest;
+    struct {
+        int k, j;
+    } nest[2];
+    char subimp;                        /* 0 or the name of the module the submodule imports */
 };
 
 static struct mdesc repo[MAXREPO];
@@ -126,11 +141,11 @@ rev_of_char(int ch)
 static int
 parse_mdesc(char *s, struct mdesc *d)
 {
-    char *parts[4], *p, *q, *save;
+    char *parts[5], *p, *q, *save;
     int n = 0;
 
     memset(d, 0, sizeof *d);
-    for (p = s; n < 4; ++n) {
+    for (p = s; n < 5; ++n) {
         parts[n] = p;
         q = strchr(p, ':');
         if (!q) {
@@ -140,8 +155,27 @@ parse_mdesc(char *s, struct mdesc *d)
         *q = 0;
         p = q + 1;
     }
-    if ((n != 4) || (strlen(parts[0]) != 2) || (rev_of_char(parts[0][1]) < 0)) {
+    if (((n != 4) && (n != 5)) || (strlen(parts[0]) != 2) || (rev_of_char(parts[0][1]) < 0)) {
         return 1;
+    }
+    if ((n == 5) && strcmp(parts[4], "-")) {
+        for (p = strtok_r(parts[4], ",", &save); p; p = strtok_r(NULL, ",", &save)) {
+            if ((p[0] == 'd') && isdigit((unsigned char)p[1])) {
+                d->derive |= 1u << (p[1] - '0');
+            } else if ((p[0] == 'a') && isdigit((unsigned char)p[1])) {
+                d->augment |= 1u << (p[1] - '0');
+            } else if ((p[0] == 'v') && isdigit((unsigned char)p[1])) {
+                d->deviate |= 1u << (p[1] - '0');
+            } else if ((p[0] == 'n') && isdigit((unsigned char)p[1]) && isdigit((unsigned char)p[2]) && (d->nnest < 2)) {
+                d->nest[d->nnest].k = p[1] - '0';
+                d->nest[d->nnest].j = p[2] - '0';
+                ++d->nnest;
+            } else if ((p[0] == 's') && p[1]) {
+                d->subimp = p[1];
+            } else {
+                return 1;
+            }
+        }
     }
     d->name = parts[0][0];
     d->rev = rev_of_char(parts[0][1]);
@@ -295,6 +329,103 @@ gen_text(const struct mdesc *d, int fault)
     return b.s;
 }
 
+/* ---------- richer modules (ctxr) ---------- */
+static int rich_mode;
+
+static char *
+gen_text_rich(const struct mdesc *d, int fault)
+{
+    struct sbuf b = {0};
+    int i, j, bad_done = 0;
+    const char *bad = "leaf bad { type leafref { path \"../nonexistent\"; } }";
+
+    sb_fmt(&b, "module %c {\n  yang-version 1.1;\n  namespace \"urn:%c\";\n  prefix %c;\n", d->name, d->name, d->name);
+    for (i = 0; i < d->nimp; ++i) {
+        sb_fmt(&b, "  import %c { prefix p%d;", d->imp[i].name, i);
+        if (d->imp[i].rev) {
+            sb_fmt(&b, " revision-date %s;", DATES[d->imp[i].rev]);
+        }
+        sb_fmt(&b, " }\n");
+    }
+    if (d->subimp) {
+        sb_fmt(&b, "  include %c-sub;\n", d->name);
+    }
+    if (d->rev) {
+        sb_fmt(&b, "  revision %s;\n", DATES[d->rev]);
+    }
+    for (i = 0; i < d->nfeat; ++i) {
+        sb_fmt(&b, "  feature %s", d->feat[i].name);
+        if (d->feat[i].ndep) {
+            sb_fmt(&b, " { if-feature \"");
+            for (j = 0; j < d->feat[i].ndep; ++j) {
+                sb_fmt(&b, "%s%s", j ? " and " : "", d->feat[i].dep[j]);
+            }
+            sb_fmt(&b, "\"; }\n");
+        } else {
+            sb_fmt(&b, ";\n");
+        }
+    }
+    if (fault == 2) {
+        sb_fmt(&b, "  feature zdup;\n  feature zdup;\n");
+    }
+    sb_fmt(&b, "  identity base;\n");
+    for (i = 0; i < d->nimp; ++i) {
+        if (d->derive & (1u << i)) {
+            sb_fmt(&b, "  identity d%d { base p%d:base; }\n", i, i);
+        }
+    }
+    sb_fmt(&b, "  container c {\n    leaf base { type string; }\n    leaf dv { type string; }\n"
+            "    leaf idr { type identityref { base base; } }\n");
+    for (i = 0; i < d->nfeat; ++i) {
+        sb_fmt(&b, "    leaf x_%s { if-feature %s; type string; }\n", d->feat[i].name, d->feat[i].name);
+    }
+    sb_fmt(&b, "  }\n");
+    for (i = 0; i < d->nimp; ++i) {
+        if (d->augment & (1u << i)) {
+            sb_fmt(&b, "  augment \"/p%d:c\" { container ac { leaf al { type string; } %s } }\n", i,
+                    ((fault == 4) && !bad_done) ? bad : "");
+            bad_done |= (fault == 4);
+        }
+    }
+    for (i = 0; i < d->nnest; ++i) {
+        sb_fmt(&b, "  augment \"/p%d:c/p%d:ac\" { leaf nl%d { type string; } %s }\n", d->nest[i].k, d->nest[i].j, i,
+                ((fault == 4) && !bad_done) ? bad : "");
+        bad_done |= (fault == 4);
+    }
+    for (i = 0; i < d->nimp; ++i) {
+        if (d->deviate & (1u << i)) {
+            sb_fmt(&b, "  deviation \"/p%d:c/p%d:dv\" { deviate not-supported; }\n", i, i);
+        }
+    }
+    if (fault == 3) {
+        sb_fmt(&b, "  leaf bad { type int8 { range \"5..1\"; } }\n");
+    } else if (((fault == 4) && !bad_done) || ((fault == 5) && !d->nfeat)) {
+        sb_fmt(&b, "  %s\n", bad);
+    } else if (fault == 5) {
+        sb_fmt(&b, "  list kl { key k; leaf k { if-feature %s; type string; } }\n", d->feat[0].name);
+    }
+    if (fault == 1) {
+        sb_fmt(&b, "  leaf { ;;; \n");
+    }
+    sb_fmt(&b, "}\n");
+    return b.s;
+}
+
+static char *
+gen_text_sub(const struct mdesc *d)
+{
+    struct sbuf b = {0};
+    const struct mdesc *t = repo_by_name(d->subimp);
+
+    sb_fmt(&b, "submodule %c-sub {\n  yang-version 1.1;\n  belongs-to %c { prefix %c; }\n  import %c { prefix sx;", d->name, d->name,
+            d->name, d->subimp);
+    if (t && t->rev) {
+        sb_fmt(&b, " revision-date %s;", DATES[t->rev]);
+    }
+    sb_fmt(&b, " }\n  identity sid { base sx:base; }\n}\n");
+    return b.s;
+}
+
 static void
 free_text(void *module_data, void *user_data)
 {
@@ -310,8 +441,18 @@ imp_clb(const char *mod_name, const char *mod_rev, const char *submod_name, cons
     int r;
 
     (void)submod_rev; (void)user_data;
-    if (submod_name || (strlen(mod_name) != 1)) {
+    if (strlen(mod_name) != 1) {
         return LY_ENOTFOUND;
+    }
+    if (submod_name) {
+        d = repo_by_name(mod_name[0]);
+        if (!rich_mode || !d || !d->subimp) {
+            return LY_ENOTFOUND;
+        }
+        *format = LYS_IN_YANG;
+        *module_data = gen_text_sub(d);
+        *free_module_data = free_text;
+        return LY_SUCCESS;
     }
     if (mod_rev) {
         for (r = 1; r < 4; ++r) {
@@ -326,7 +467,7 @@ imp_clb(const char *mod_name, const char *mod_rev, const char *submod_name, cons
         return LY_ENOTFOUND;
     }
     *format = LYS_IN_YANG;
-    *module_data = gen_text(d, d->fault);
+    *module_data = rich_mode ? gen_text_rich(d, d->fault) : gen_text(d, d->fault);
     *free_module_data = free_text;
     return LY_SUCCESS;
 }
@@ -517,7 +658,7 @@ do_op(struct ly_ctx *ctx, const char *opstr)
         if ((idx < 0) || (idx >= nrepo)) {
             goto done;
         }
-        text = gen_text(&repo[idx], strcmp(w[2], "-") ? atoi(w[2]) : repo[idx].fault);
+        text = (rich_mode ? gen_text_rich : gen_text)(&repo[idx], strcmp(w[2], "-") ? atoi(w[2]) : repo[idx].fault);
         feats = parse_features(w[3], farr, 16);
         ly_in_new_memory(text, &in);
         r = lys_parse(ctx, in, LYS_IN_YANG, feats, NULL);
@@ -702,6 +843,135 @@ run_script(struct vcase *c, int shadow)
     }
 }
 
+/* the observable of ctxr: public fields only */
+static int
+cmp_str(const void *a, const void *b)
+{
+    return strcmp(*(char * const *)a, *(char * const *)b);
+}
+
+static void
+print_obs_rich(struct ly_ctx *ctx, struct sbuf *o)
+{
+    uint32_t i = ly_ctx_internal_modules_count(ctx);
+    struct lys_module *m;
+    LY_ARRAY_COUNT_TYPE u, v;
+    int firstm = 1, k;
+    char nm[2] = {0, 0};
+
+    while ((m = ly_ctx_get_module_iter(ctx, &i))) {
+        char *s = NULL;
+
+        sb_fmt(o, "%s%s%d%c{", firstm ? "" : " ", m->name, rev_of_mod(m), m->implemented ? 'I' : 'i');
+        firstm = 0;
+        LY_ARRAY_FOR(m->parsed->features, u) {
+            sb_fmt(o, "%s%s%c", u ? "," : "", m->parsed->features[u].name,
+                    (lys_feature_value(m, m->parsed->features[u].name) == LY_SUCCESS) ? '+' : '-');
+        }
+        sb_fmt(o, "}id[");
+        LY_ARRAY_FOR(m->identities, u) {
+            char *names[32];
+            size_t n = 0;
+
+            sb_fmt(o, "%s%s(", u ? "," : "", m->identities[u].name);
+            LY_ARRAY_FOR(m->identities[u].derived, v) {
+                const struct lysc_ident *dr = m->identities[u].derived[v];
+                char tmp[64];
+
+                snprintf(tmp, sizeof tmp, "%s:%s", dr->module->name, dr->name);
+                if (n < 32) {
+                    names[n++] = strdup(tmp);
+                }
+            }
+            qsort(names, n, sizeof *names, cmp_str);
+            for (size_t x = 0; x < n; ++x) {
+                sb_fmt(o, "%s%s", x ? "+" : "", names[x]);
+                free(names[x]);
+            }
+            sb_fmt(o, ")");
+        }
+        sb_fmt(o, "]ab[");
+        LY_ARRAY_FOR(m->augmented_by, u) {
+            sb_fmt(o, "%s%s", u ? "," : "", m->augmented_by[u]->name);
+        }
+        sb_fmt(o, "]db[");
+        LY_ARRAY_FOR(m->deviated_by, u) {
+            sb_fmt(o, "%s%s", u ? "," : "", m->deviated_by[u]->name);
+        }
+        sb_fmt(o, "]c=");
+        if (m->implemented && m->compiled && !lys_print_mem(&s, m, LYS_OUT_YANG_COMPILED, 0) && s) {
+            sb_fmt(o, "%08x", str_hash(s));
+        } else {
+            sb_fmt(o, "-");
+        }
+        free(s);
+    }
+    sb_fmt(o, ";L:");
+    for (k = 0; k < NNAMES; ++k) {
+        nm[0] = 'a' + k;
+        m = ly_ctx_get_module_latest(ctx, nm);
+        sb_fmt(o, m ? "%d" : "-", m ? rev_of_mod(m) : 0);
+    }
+    sb_fmt(o, ";M:");
+    for (k = 0; k < NNAMES; ++k) {
+        nm[0] = 'a' + k;
+        m = ly_ctx_get_module_implemented(ctx, nm);
+        sb_fmt(o, m ? "%d" : "-", m ? rev_of_mod(m) : 0);
+    }
+}
+
+static void
+run_rich(struct vcase *c)
+{
+    struct ly_ctx *ctx = NULL, *ctx2 = NULL;
+    uint16_t opts = LY_CTX_NO_YANGLIBRARY | LY_CTX_DISABLE_SEARCHDIRS | LY_CTX_DISABLE_SEARCHDIR_CWD;
+    int f, first = 1;
+
+    if ((c->nf < 3) || parse_repo(c->f[2])) {
+        printf("?");
+        return;
+    }
+    rich_mode = 1;
+    if (ly_ctx_new(NULL, opts, &ctx) || ly_ctx_new(NULL, opts, &ctx2)) {
+        printf("?ctx");
+        rich_mode = 0;
+        return;
+    }
+    ly_ctx_set_module_imp_clb(ctx, imp_clb, NULL);
+    ly_ctx_set_module_imp_clb(ctx2, imp_clb, NULL);
+    if (atoi(c->f[1])) {
+        ly_ctx_set_options(ctx, LY_CTX_EXPLICIT_COMPILE);
+        ly_ctx_set_options(ctx2, LY_CTX_EXPLICIT_COMPILE);
+    }
+    for (f = 3; f < c->nf; ++f) {
+        struct sbuf o = {0}, o2 = {0};
+        int rc;
+
+        printf("%s", first ? "" : " | ");
+        first = 0;
+        rc = do_op(ctx, c->f[f]);
+        if (rc == 3) {
+            printf("?op");
+            continue;
+        }
+        print_obs_rich(ctx, &o);
+        printf("%s;%s", (rc == 0) ? "ok" : ((rc == 1) ? "E" : "nomod"), o.s ? o.s : "");
+        if (rc == 0) {
+            int rc2 = do_op(ctx2, c->f[f]);
+
+            print_obs_rich(ctx2, &o2);
+            printf(" S%c", (!rc2 && !strcmp(o.s ? o.s : "", o2.s ? o2.s : "")) ? '=' : '!');
+        } else {
+            printf(" S.");
+        }
+        free(o.s);
+        free(o2.s);
+    }
+    ly_ctx_destroy(ctx);
+    ly_ctx_destroy(ctx2);
+    rich_mode = 0;
+}
+
 /* table of the internal modules: <name>:<I|i>:<S|s single dep set>:<D|d has dep mods>:<F|f has features>:<imports as indices> */
 static void
 print_internals(void)
@@ -749,6 +1019,8 @@ main(void)
             run_script(&c, 0);
         } else if (!strcmp(comp, "ctxo")) {
             run_script(&c, 1);
+        } else if (!strcmp(comp, "ctxr")) {
+            run_rich(&c);
         } else if (!strcmp(comp, "ctxint")) {
             print_internals();
         } else {
